@@ -130,4 +130,45 @@ def push_item_tables(ctx, F):
 
 
 def sink_rule(ctx, F):
-    pass
+    """F3 — loops over source items run to completion: in the statement evaluator (module
+    output::*) a loop that walks a collection of items / names / values must not be left by a
+    *successful* return from inside its body: the remaining elements would be skipped silently."""
+    from lib import cfgutil
+    prog = F.lib
+    n_loops = 0
+    for b in sorted(prog.bodies.values(), key=lambda b: b.def_):
+        if not (b.def_.startswith("output::transform::") or b.def_.startswith("<output::cssd")):
+            continue
+        err = cfgutil.error_exit_blocks(b)
+        for bi, t in b.calls():
+            if (mir.callee_orig(t) or "") != "std::iter::Iterator::next" or t.get("target") is None:
+                continue
+            # the Some edge of the switch on next()'s result
+            sw = b.blocks[t["target"]]["term"]
+            if sw["k"] != "switch" or not sw.get("discr_of") or sw["discr_of"][0] != t["dest"][0]:
+                continue
+            names = {nm: tg for _, tg, nm in sw["targets"]}
+            some = names.get("Some")
+            if some is None:
+                continue
+            n_loops += 1
+            # is this really a loop? the header must be reachable again from the body
+            body = b.reachable_blocks(some, avoid=(bi,))
+            is_loop = any(bi in b.successors(x) for x in body)
+            if not is_loop:
+                continue
+            p = cfgutil.paths_to_return_avoiding(b, some, {bi})
+            key = f"{b.def_}|loop#{n_loops}@{iter_descr(b, t)}"
+            if p:
+                ctx.fail("F3-loop-completes", key, f"in {b.def_} the loop over {iter_descr(b, t)} can be left by a successful return from inside its body: the remaining elements are never evaluated and nothing is reported", where=b.where(p[-2] if len(p) > 1 else bi), path=[f"bb{x}" for x in p[:12]])
+            else:
+                ctx.ok("F3-loop-completes", key, None)
+    ctx.floor("item loops in the statement evaluator", n_loops, 5)
+
+
+def iter_descr(b, t):
+    from lib import sym
+    S = sym.Sym(b.prog, inline_depth=0)
+    term = sym.strip_transparent(S.operand(b, t["args"][0]))
+    s = sym.show(term)
+    return s[:60]
